@@ -1377,10 +1377,13 @@ func (c *Client) Status() (*ClientStatus, error) {
 // in the client. It returns two slices of errors containing the send
 // and recv errors
 func (c *Client) hasErrors() ([]error, []error) {
-	c.readErrMu.RLock()
-	defer c.readErrMu.RUnlock()
+	// The locks are taken in the order in which Reset and Status take them: with the
+	// opposite order an AwaitConverged caller and a concurrent Reset each hold one of
+	// the two and wait for the other.
 	c.sendErrMu.RLock()
 	defer c.sendErrMu.RUnlock()
+	c.readErrMu.RLock()
+	defer c.readErrMu.RUnlock()
 	if len(c.readErr) != 0 || len(c.sendErr) != 0 {
 		return c.sendErr, c.readErr
 	}
